@@ -328,7 +328,16 @@ class NumpyTheory:
             return v.t
         return None
 
+    def np_np_tile(self, args, kw, st, node):
+        return self.mat_tile(args[0], args[1], st, node)
+
     def np_np_zeros(self, args, kw, st, node):
+        a0 = args[0]
+        if isinstance(a0, VList) and not a0.nd and const_int(st.heap.lists[a0.ref].length) == 2 and st.heap.lists[a0.ref].etype == 'int':
+            L = st.heap.lists[a0.ref].leaves[0]
+            return self.mat_zeros([VInt(z3.simplify(L[0])), VInt(z3.simplify(L[1]))], kw.get('dtype'), st, node)
+        if isinstance(a0, VTuple) and len(a0.items) == 2 and isinstance(kw.get('dtype'), VFunc) and kw['dtype'].kind == 'matdtype':
+            return self.mat_zeros(a0.items, kw.get('dtype'), st, node)
         n = self._shape1(args[0])
         if n is None:
             return None
@@ -373,6 +382,8 @@ class NumpyTheory:
         v = args[0]
         if isinstance(v, VBool):
             return v
+        if type(v).__name__ == 'VMatMask':
+            return self.mat_all(v, st)
         c = self.acell(v, st)
         k = z3.Int(fresh_name('k'))
         body = c.leaves[0][k] if c.etype == 'bool' else c.leaves[0][k] != 0
@@ -456,6 +467,8 @@ class NumpyTheory:
         return VList(res.ref, nd=True)
 
     def np_np_isin(self, args, kw, st, node):
+        if type(args[0]).__name__ == 'VMat':
+            return self.mat_isin(args[0], args[1], st, node)
         a, b = self.as_array(args[0], st), self.as_array(args[1], st)
         ca, cb = self.acell(a, st), self.acell(b, st)
         if ca.etype != 'int' or cb.etype not in ('int', None):
@@ -491,6 +504,11 @@ class NumpyTheory:
         st.assume(z3.ForAll([j, j2], z3.Implies(z3.And(j >= 0, j < j2, j2 < m), U[j] < U[j2])))
         st.assume(z3.ForAll([j], z3.Implies(z3.And(j >= 0, j < m), z3.And(src(j) >= 0, src(j) < c.length, X[src(j)] == U[j]))))
         st.assume(z3.ForAll([k], z3.Implies(z3.And(k >= 0, k < c.length), z3.And(pos(k) >= 0, pos(k) < m, U[pos(k)] == X[k]))))
+        # counting fact (pigeonhole, not derivable by instantiation): as many distinct values as elements  <=>  no value occurs twice
+        d1, d2 = z3.Int(fresh_name('dup')), z3.Int(fresh_name('dup'))
+        i2, j3 = z3.Int(fresh_name('i')), z3.Int(fresh_name('j'))
+        st.assume(z3.Or(m == c.length, z3.And(d1 >= 0, d1 < d2, d2 < c.length, X[d1] == X[d2])))
+        st.assume(z3.Or(m != c.length, z3.ForAll([i2, j3], z3.Implies(z3.And(i2 >= 0, i2 < j3, j3 < c.length), X[i2] != X[j3]))))
         return VList(res.ref, nd=True)
 
     def np_np_cumsum(self, args, kw, st, node):
@@ -552,6 +570,13 @@ class NumpyTheory:
         st.assume(z3.ForAll([i, j], z3.Implies(z3.And(i >= 0, i < j, j < m), R[i] < R[j])))
         st.assume(z3.ForAll([i], z3.Implies(z3.And(i >= 0, i < m), z3.And(ia(i) >= 0, ia(i) < ca.length, A[ia(i)] == R[i], ib(i) >= 0, ib(i) < cb.length, B[ib(i)] == R[i]))))
         st.assume(z3.ForAll([p, q], z3.Implies(z3.And(p >= 0, p < ca.length, q >= 0, q < cb.length, A[p] == B[q]), z3.And(pos(p, q) >= 0, pos(p, q) < m, R[pos(p, q)] == A[p]))))
+        # consequence of the three facts above by lemma L1 (lean/L1_sorted_same_members.lean: strictly sorted lists with the same members
+        # are equal), which instantiation cannot find (induction): a strictly increasing first argument contained in the second is returned as is
+        i2, j2, k2, e2 = z3.Int(fresh_name('i')), z3.Int(fresh_name('j')), z3.Int(fresh_name('k')), z3.Int(fresh_name('e'))
+        inc = z3.ForAll([i2, j2], z3.Implies(z3.And(i2 >= 0, i2 < j2, j2 < ca.length), A[i2] < A[j2]))
+        sub = z3.ForAll([k2], z3.Implies(z3.And(k2 >= 0, k2 < ca.length), z3.Exists([e2], z3.And(e2 >= 0, e2 < cb.length, B[e2] == A[k2]))))
+        st.assume(z3.Implies(z3.And(inc, sub), z3.And(m == ca.length, z3.ForAll([k2], z3.Implies(z3.And(k2 >= 0, k2 < m), R[k2] == A[k2])))))
+        self.used('np.intersect1d returns a strictly increasing subset argument unchanged (lemma L1, Lean-checked)')
         return VList(res.ref, nd=True)
 
     def rag_psum(self, rc, st):
